@@ -133,11 +133,18 @@ def run(ctx):
             check_family(ctx, rng, case, doc, None, "valid")
             ops = list(rulebreak.OPERATORS)
             rng.shuffle(ops)
-            for op_fn in ops[:14]:
+            # operators that found few applicable documents so far in this shard get their turn first, and
+            # an operator that does not apply does not use up one of the 14 slots
+            ops.sort(key=lambda f: ctx.counters["operator:" + f.__name__] >= 6)
+            applied = 0
+            for op_fn in ops:
+                if applied >= 14:
+                    break
                 broken = rulebreak.apply_operator(rng, doc, case.ir, op_fn)
                 if broken is None:
                     ctx.count("operator_not_applicable")
                     continue
+                applied += 1
                 ctx.count("operator:" + op_fn.__name__)
                 check_family(ctx, rng, case, broken, op_fn.label, op_fn.__name__)
     ctx.require("valid_checked", 50)
